@@ -4,20 +4,25 @@
 # order) must be identical. Writes /verif/validation/determinism.txt. Exit 2 on divergence.
 # usage: tools/determinism.sh [seed...]        (default: 1 7)
 cd /verif
+(cd /verif/sim && CARGO_NET_OFFLINE=true cargo build --release --offline >/dev/null 2>&1) || { echo "build failed"; exit 2; }
+mkdir -p /verif/target/snapshot && cp /verif/target/release/verif-sim /verif/target/snapshot/verif-sim-det-$$
+BIN=/verif/target/snapshot/verif-sim-det-$$
+export VERIF_EVIDENCE_DIR=/verif/target/campaign-evidence-$$; mkdir -p $VERIF_EVIDENCE_DIR
 SEEDS=${@:-1 7}
 OUT=/verif/validation/determinism.txt
-echo "# determinism campaign $(date -u +%FT%TZ): check seed jobs=16 vs jobs=5 -> event_log_digest / evaluations" > $OUT
+mkdir -p /verif/validation
+echo "# determinism campaign $(date -u +%FT%TZ), harness $(git -C /verif rev-parse --short HEAD), repo $(git -C /repo rev-parse --short HEAD): check seed jobs=16 vs jobs=5 -> event_log_digest / evaluations" > $OUT
 rc=0
 for id in $(python3 -c "import json; print(' '.join(c['property_id'] for c in json.load(open('MANIFEST.json'))['checks']))"); do
   for seed in $SEEDS; do
     d=()
     for jobs in 16 5; do
-      VERIF_SEED=$seed VERIF_JOBS=$jobs ./check $id >/dev/null 2>&1
-      d+=("$(python3 -c "import json; c=json.load(open('evidence/$id.json'))['coverage']; print(c.get('event_log_digest'), c.get('evaluations'))")")
+      VERIF_SEED=$seed VERIF_JOBS=$jobs $BIN check $id >/dev/null 2>&1
+      d+=("$(python3 -c "import json; c=json.load(open('$VERIF_EVIDENCE_DIR/$id.json'))['coverage']; print(c.get('event_log_digest'), c.get('evaluations'))")")
     done
     if [ "${d[0]}" == "${d[1]}" ]; then v=identical; else v=DIVERGED; rc=2; fi
     echo "$id seed=$seed $v  [${d[0]}] [${d[1]}]" | tee -a $OUT
   done
 done
-# leave default-seed evidence behind
+rm -rf $BIN $VERIF_EVIDENCE_DIR
 exit $rc
